@@ -454,6 +454,22 @@ def pureAnswer (k : Kind) (iw : List Nat) (ss : Streams) (off : Nat) (q : Nat) :
   else if q = 3 then showAnswer (pureRgb (F 0) (F 1) (F 2))
   else match pureShape F [0, 1, 2] with | .err e => e | .ok sh => Verif.Proto.showNatList sh
 
+/-! ### regular info waves (input family of the first-line-repair theorems; `builders_confocal.infowave`) -/
+
+/-- one pixel: `k - 1` samples `use`, then the boundary sample -/
+def regPixel (k : Nat) : List Nat := List.replicate (k - 1) 1 ++ [2]
+/-- one line of `P` pixels -/
+def regLine (k : Nat) : Nat → List Nat
+  | 0 => []
+  | P + 1 => regPixel k ++ regLine k P
+/-- `n` lines, each followed by `d` discarded samples -/
+def regLines (k d P : Nat) : Nat → List Nat
+  | 0 => []
+  | n + 1 => regLine k P ++ (List.replicate d 0 ++ regLines k d P n)
+/-- lead-in, then the lines -/
+def regWave (lead k d P n : Nat) : List Nat := List.replicate lead 0 ++ regLines k d P n
+
+
 /-! ### protocol -/
 open Verif.Proto
 
@@ -480,6 +496,9 @@ def axes? (fa fp sa sp : String) : Option Axes := do
                                          red, green, blue; 3 = `get_image("rgb")`; 4 = `Kymo.shape`
   `c02.kymoseqoff …` / `c02.scanseqoff …` (arguments of `kymoseq` / `scanseq`) the object's start after the sequence, as
                                          a sample index into the info wave (`ObjState.off` of `stateAfter`)
+  `c02.regwave lead k d P n`             the regular info wave (`regWave`) and where `seek_timestamp_next_line` lands on it
+  `c02.regafter lead k d P n [red]`      the image of a colour covering the whole wave, minus its first line of pixels
+                                         (right-hand side of `fresh_after_repair`)
   `c02.total k|s [iw] lead [counts]|N`   the image total the property promises for that colour (specification side:
                                          used samples of the shared span up to its last boundary)
   `c02.kymopure …` / `c02.scanpure …`    (arguments of `kymoseq` / `scanseq`) every query answered from scratch
@@ -549,6 +568,16 @@ def handle : List String → Option String
     let lr ← int? lr; let cr ← chan? cr; let lg ← int? lg; let cg ← chan? cg; let lb ← int? lb; let cb ← chan? cb
     if pixelsPerLine axes < 2 ∨ linesPerFrame axes < 2 ∨ qs.any (· > 3) then none
     else some (toString (stateAfter (.scan axes) iw [⟨lr, cr⟩, ⟨lg, cg⟩, ⟨lb, cb⟩] ObjState.fresh qs).off)
+  | ["c02.regwave", lead, k, d, p, n] => do
+    let lead ← nat? lead; let k ← nat? k; let d ← nat? d; let p ← nat? p; let n ← nat? n
+    let iw := regWave lead k d p n
+    some (showNatList iw ++ " " ++ (match seekNextLine iw with | none => "ValueError" | some v => toString v))
+  | ["c02.regafter", lead, k, d, p, n, red] => do
+    let lead ← nat? lead; let k ← nat? k; let d ← nat? d; let p ← nat? p; let n ← nat? n
+    let red ← intList? red
+    let iw := regWave lead k d p n
+    if p = 0 ∨ red.length ≠ iw.length then none
+    else some (showImage (imageOfPixels (.kymo p) (.ok ((pixelsSpec red iw).drop p))))
   | ["c02.total", kind, iw, lead, ch] => do
     let iw ← natList? iw; let lead ← int? lead; let ch ← chan? ch
     if kind != "k" && kind != "s" then none
